@@ -63,15 +63,43 @@ def main(argv):
         for o in obls:
             by_engine.setdefault(o.engine, []).append(o)
         # engines are independent; run the cheap ones first so build errors surface early
+        def part_of(o):
+            if o.engine == "kani":
+                return "kani/" + o.harness.split("::")[0]
+            if o.engine == "exec":
+                return "exec/" + o.extra.get("mod", "")
+            return None
         for eng, mod in (("static", static_engine), ("verus", verus_engine), ("kani", kani_adapter), ("exec", exec_engine)):
-            if eng in by_engine:
+            if eng not in by_engine:
+                continue
+            todo = list(by_engine[eng])
+            for attempt in range(4):
                 try:
-                    outcomes.update(mod.run(ctx, by_engine[eng]))
+                    outcomes.update(mod.run(ctx, todo))
+                    break
+                except common.BuildFailed as ex:
+                    # overlay parts that no longer compile against the edited source are lost anchors for
+                    # THEIR obligations only: drop them, rebuild the scratch copy, retry the rest
+                    if ex.files and attempt < 3 and scratch.exclude(ex.files):
+                        log("overlay parts no longer compile against the source (lost anchors): %s" % ", ".join(sorted(ex.files)))
+                        notes.append("overlay parts excluded after a build failure: %s" % ", ".join(sorted(scratch.excluded)))
+                        lost = [o for o in todo if part_of(o) in scratch.excluded]
+                        for o in lost:
+                            outcomes[o.id] = {"status": "undecided", "reason": "lost anchor: overlay %s no longer compiles against the source: %s" % (part_of(o), str(ex)[:300])}
+                        todo = [o for o in todo if o not in lost]
+                        if not todo:
+                            break
+                        continue
+                    log("UNDECIDED engine %s (%s): %s" % (eng, prop, ex))
+                    for o in todo:
+                        outcomes.setdefault(o.id, {"status": "undecided", "reason": str(ex)[:600]})
+                    break
                 except Undecided as ex:
                     # a tool limit / lost anchor / build error of ONE engine must not hide what the others find
                     log("UNDECIDED engine %s (%s): %s" % (eng, prop, ex))
-                    for o in by_engine[eng]:
+                    for o in todo:
                         outcomes.setdefault(o.id, {"status": "undecided", "reason": str(ex)[:600]})
+                    break
     except Undecided as ex:
         log("UNDECIDED (%s): %s" % (prop, ex))
         write_evidence(prop, a.tier, seed, obls, outcomes, notes + ["UNDECIDED: %s" % ex], t0, evid_path, None)
